@@ -377,6 +377,11 @@ class C02(CtxCheck):
                     types, name = KEYS[k]
                     if (types[0], name) not in m.res and (types[1], name) in m.res and not any(op[0] == "op" and op[2][:2] == ("add", k) and "x:" in op[2][3] for op in u.hist):
                         ops.append(("op", m.idx, ("add", k, False, f"x:c{m.idx}:{k}", "m")))
+                # the same for a two-type FACTORY whose second type already has a factory (here or inherited)
+                for k in ("ABd", "BAd"):
+                    types, name = KEYS[k]
+                    if (types[0], name) not in m.fac and (types[1], name) in m.fac and not any(op[0] == "op" and op[2][:2] == ("addf", k) and "xf:" in op[2][3] for op in u.hist):
+                        ops.append(("op", m.idx, ("addf", k, "sync", f"xf:c{m.idx}:{k}", "m")))
                 for k, fk in (("Ad", "sync"), ("BAd", "async"), ("Ax", "sync")):
                     types, name = KEYS[k]
                     if all((t, name) not in m.fac for t in types):
